@@ -9,7 +9,8 @@ for pid in sorted(CHECKS):
     low = pid.lower()
     props = os.path.join(HERE, 'coq', pid, 'Props.v')
     nthm = len(re.findall(r'^\s*Theorem\s', open(props).read(), re.M)) if os.path.exists(props) else 0
-    tr = 'yes' if os.path.exists(os.path.join(HERE, 'translate', low + '.py')) else 'no'
+    shared = {'c02': 'c01.py', 'c09': 'c08.py', 'c10': 'c08.py'}
+    tr = 'yes' if os.path.exists(os.path.join(HERE, 'translate', low + '.py')) else ('yes (shares translate/%s)' % shared[low] if low in shared else 'no')
     evp = os.path.join(HERE, 'evidence', pid + '.json')
     ax, ev, wall, known = '?', '?', '?', ''
     if os.path.exists(evp):
